@@ -562,6 +562,9 @@ def run_shard(args):
             for p in run_checkids_widen(seed * 47 + i):
                 oracle_bad.append({'desc': p['desc'], 'diffs': [['checkids-widen', p['msg']]]})
         stats['checkids_widen_cases'] = max(2, n // 4)
+        for i in range(max(2, n // 4)):
+            for p in run_checkids_typed(seed * 67 + i):
+                oracle_bad.append({'desc': p['desc'], 'diffs': [['checkids-typed', p['msg']]]})
     sample = next(({'desc': r['desc'], 'ids': r['real'].get('ids')} for r in recs if 'real' in r), None)
     return stats, oracle_bad, model_bad, hash_bad, sample, memo_bad
 
@@ -752,4 +755,47 @@ def run_mixed_numeric_join(seed):
                              'msg': f'Join(how={how!r}) on a numeric field ({lk} vs {[repr(v) for v in rk]}): ids {got!r}, the sorted keys of the mode are {want!r}'})
     except Exception as e:
         problems.append({'desc': {'left': lk, 'right': [repr(v) for v in rk], 'how': how}, 'msg': 'Join on a numeric field raised ' + exc_name(e) + ': ' + str(e)[:150]})
+    return problems
+
+
+def run_checkids_typed(seed):
+    """CheckIds over datasets whose ids are not strings (ints, also after Filter.keep and Merge): every field - `id` too - raises KeyError for a key
+    of ANY type that is not among the ids (a string that prints like an id, a float, a tuple, bytes, None), and is transparent for the ids (C15)"""
+    from . import paths as paths_
+    paths_.use_repo()
+    import connectome as c
+    rng = random.Random(seed)
+    ids = rng.sample([2, 9, 10, 30, 100, -1, 7], rng.randint(2, 5))
+    problems = []
+    try:
+        src = c.Transform(ids=c.meta((lambda t: lambda: t)(tuple(ids))), id=lambda id: id, x=lambda id: ('x', id))
+        shape = rng.choice(['plain', 'keep', 'merge'])
+        if shape == 'keep':
+            first = ids[0]
+            ds = src >> c.Filter(lambda id: id != first)
+            ids = ids[1:]
+        elif shape == 'merge':
+            other = [v + 1000 for v in ids]
+            ds = c.Merge(src, c.Transform(ids=c.meta((lambda t: lambda: t)(tuple(other))), id=lambda id: id, x=lambda id: ('x', id)))
+            ids = ids + other
+        else:
+            ds = src
+        guarded = ds >> c.CheckIds()
+        for i in ids[:3]:
+            if guarded.x(i) != ('x', i) or guarded.id(i) != i:
+                problems.append({'desc': {'ids': ids, 'shape': shape}, 'msg': f'CheckIds over int ids ({shape}): x({i!r}) = {guarded.x(i)!r}'})
+        for key in [str(ids[0]), 'zz', float(ids[0]) + 0.5, (ids[0],), str(ids[0]).encode(), None, 5555]:
+            for field in ('x', 'id'):
+                try:
+                    v = getattr(guarded, field)(key)
+                    problems.append({'desc': {'ids': ids, 'shape': shape}, 'msg': f'CheckIds over int ids {ids} ({shape}): {field}({key!r}) returned {v!r} - the key is not among the ids'})
+                except KeyError:
+                    continue
+                except Exception as e:
+                    problems.append({'desc': {'ids': ids, 'shape': shape},
+                                     'msg': f'CheckIds over int ids {ids} ({shape}): {field}({key!r}) raised {type(e).__name__} ({str(e)[:60]}), a foreign id is rejected with KeyError'})
+                if problems:
+                    return problems
+    except Exception as e:
+        problems.append({'desc': {'ids': ids}, 'msg': 'CheckIds over int ids raised ' + exc_name(e) + ': ' + str(e)[:150]})
     return problems
